@@ -345,32 +345,9 @@ Section Reachable.
   Qed.
 End Reachable.
 
-(* ---- the lock and a second invocation (lock_acquire / trap_exit of util.sh) --------------------- *)
-Record world := mkworld { w_lock : option bytes; w_dirs : list (bytes * sfile) }.
+(* the lock and invocations started meanwhile: Orch/RunLock.v, Orch/RunLockProofs.v *)
 
-(* a second invocation: creates its build directory, tries the lock, and on refusal runs trap_exit:
-   no report (no steps), lock_release only if it owns the lock, empty build directory removed *)
-Definition second_invocation (w : world) (b : bytes) : world * Z * bool :=
-  let w1 := mkworld (w_lock w) (w_dirs w ++ [(b, [])]) in
-  match w_lock w with
-  | Some owner =>
-      if negb (beq owner []) && negb (beq owner b)
-      then (* refused *)
-        let released := if beq owner b then None else w_lock w in
-        (mkworld released (w_dirs w), 1, false)
-      else (mkworld (Some b) (w_dirs w1), 0, false)
-  | None => (mkworld (Some b) (w_dirs w1), 0, false)
-  end.
-
-Lemma second_invocation_refused w owner b :
-  w_lock w = Some owner -> owner <> [] -> owner <> b ->
-  second_invocation w b = (w, 1, false).
-Proof.
-  intros Hl Hne Hb. unfold second_invocation. rewrite Hl.
-  destruct (beq_spec owner []); [contradiction|]. destruct (beq_spec owner b); [contradiction|].
-  cbn. destruct w; cbn in *. now rewrite Hl.
-Qed.
-
+(* trap_exit restated (the link to the records is AccountOracle.report_iff_failed_record_or_end) *)
 Lemma report_decision m f d :
   e_report (trap_exit m f d) = has_steps f && (negb (match m with ODone => true | _ => false end) || has_end f) /\
   e_mail (trap_exit m f d) = e_report (trap_exit m f d) && d /\
